@@ -164,7 +164,7 @@ def part_files(ck, fmt):
 
 
 def main():
-    ck = Check("C10", "proof of sub-codecs + exploration")
+    ck = Check("C10", "proof")
     build_repo()
     pr = ck.proofs()
     variant = probe_variant()
